@@ -45,8 +45,18 @@ def ensure_makefile():
         if rc != 0:
             raise RuntimeError("coq_makefile failed:\n" + out)
 
+TRANSLATOR_STATUS = {}
+def regenerate_gen():
+    """Re-translate the units of DESIGN 6.2 from /repo's working tree into coq/Gen (every run)."""
+    sys.path.insert(0, str(VERIF / "harness" / "translate"))
+    import py2coq
+    st, detail = py2coq.regenerate(REPO, COQ)
+    TRANSLATOR_STATUS["normalize_file_permissions"] = dict(status=st, detail=detail)
+    return st
+
 def build_coq(targets=None, timeout=3000):
     """Full .vo build (never -vos).  Returns (ok, log)."""
+    regenerate_gen()
     ensure_makefile()
     tg = " ".join(targets) if targets else ""
     rc, out = sh(f"timeout {timeout} make -j{NCPU} {tg}", cwd=COQ, timeout=timeout + 30)
